@@ -4,6 +4,7 @@ mod emitter;
 pub mod error;
 mod includes;
 mod inline;
+mod nesting;
 mod parser;
 pub mod stats;
 mod validator;
